@@ -27,10 +27,11 @@ Record jvariant := {
   fix_endctx : bool;   (* F11a: wrappedTransform.EndStoreContext forwards to w.t instead of itself *)
   fix_verify : bool;   (* F11b: verify checks the error handlers of onchange triggers too *)
   fix_panic : bool;    (* F11c: a panic inside the run is turned into a recorded failure *)
-  fix_chunk : bool     (* F11d = F10b seen from here: the chunk arithmetic of the parallel transform does not panic *)
+  fix_chunk : bool;    (* F11d = F10b seen from here: the chunk arithmetic of the parallel transform does not panic *)
+  fix_clone : bool     (* F11e: the parallel workers get their own clone of the JS runtime also when the transform is wrapped *)
 }.
-Definition jcurrent := {| fix_endctx := false; fix_verify := false; fix_panic := false; fix_chunk := false |}.
-Definition jfixed := {| fix_endctx := true; fix_verify := true; fix_panic := true; fix_chunk := true |}.
+Definition jcurrent := {| fix_endctx := false; fix_verify := false; fix_panic := false; fix_chunk := false; fix_clone := false |}.
+Definition jfixed := {| fix_endctx := true; fix_verify := true; fix_panic := true; fix_chunk := true; fix_clone := true |}.
 
 (** Scheduler.verify: an onchange trigger with a monitored dataset returns before verifyErrorHandlers *)
 Definition handlers_verified (v : jvariant) (c : cfg) : bool :=
@@ -48,6 +49,14 @@ Definition has_log (v : jvariant) (c : cfg) : bool :=
   end.
 (** ... and the handler object exists only if verifyErrorHandlers created it *)
 Definition handler_nil (v : jvariant) (c : cfg) : bool := has_log v c && negb (handlers_verified v c).
+
+(** F11e: IncrementalPipeline.sync clones the JS runtime per worker only if the transform's dynamic type is
+    *JavascriptTransform; wrapped by instrumentErrorHandling it is a *wrappedTransform, so with Parallelism > 1 the
+    workers share one goja runtime - a data race.  The outcome of such a run is not determined (observed: index out of
+    range / nil dereference in a worker goroutine, which kills the process; or no visible damage). *)
+Definition racy (v : jvariant) (c : cfg) : bool :=
+  negb (fix_clone v) && accepted v c && has_log v c && negb (c_kill c)
+  && (match c_tr c, c_jt c with TJsPar, JIncr => true | _, _ => false end).
 
 Inductive sres := SOk | SErr | SInterrupt | SPanic | SDiverge.
 
